@@ -32,9 +32,20 @@ class FuncInfo:
     kind: str = "function"  # function | method | staticmethod | property | setter | nested
 
     @property
-    def params(self) -> List[str]:
+    def own_params(self) -> List[str]:
+        """Parameters in declaration order (what a call site binds against)."""
         a = self.node.args
         return [x.arg for x in a.posonlyargs + a.args + a.kwonlyargs]
+
+    @property
+    def params(self) -> List[str]:
+        """Parameters in the order of the reference tree when the function (or the reference helper it stands in for)
+        merely had its parameters reordered - rules name the k-th *reference* parameter."""
+        own = self.own_params
+        ro = getattr(self, "ref_order", None)
+        if ro is not None and set(ro) == set(own) and len(ro) == len(own):
+            return list(ro)
+        return own
 
     @property
     def file(self):
@@ -316,6 +327,10 @@ class Program:
         self.renamed = getattr(self, "renamed", {})
         missing = [q for q in ref if q not in self.functions and q.rsplit(".", 1)[-1].startswith("_")
                    and not q.rsplit(".", 1)[-1].startswith("__") and ref[q]["kind"] in ("function", "method", "staticmethod")]
+        for q, r in ref.items():
+            f = self.functions.get(q)
+            if f is not None and f.own_params != r["params"] and set(f.own_params) == set(r["params"]):
+                f.ref_order = list(r["params"])
         if not missing:
             return
         new = {q: f for q, f in self.functions.items() if q not in ref and f.parent is None and f.kind in ("function", "method", "staticmethod")}
@@ -359,6 +374,12 @@ class Program:
         def toks(q):
             return {t for t in q.rsplit(".", 1)[-1].lower().split("_") if t}
 
+        # same-name functions whose parameters were merely reordered
+        for q, r in ref.items():
+            f = self.functions.get(q)
+            if f is not None and f.own_params != r["params"] and set(f.own_params) == set(r["params"]):
+                f.ref_order = list(r["params"])
+
         def score_all():
             pairs = []
             for mq in missing:
@@ -399,6 +420,8 @@ class Program:
                 best_rival = max(rivals) if rivals else 0.0
                 if sc >= 1.0 and sc - best_rival >= 0.5:
                     self.renamed[mq] = nq
+                    if new[nq].own_params != ref[mq]["params"]:
+                        new[nq].ref_order = list(ref[mq]["params"])
                     accepted = True
                     break
             if not accepted:
